@@ -97,6 +97,7 @@ def pool(tier, seed):
             ("Subscript", p.Subscript(v, 1)), ("Subscript-expr", p.Subscript(v, p.Remainder(p.Sum((a, 5)), 3))), ("Subscript2", p.Subscript(o, (0, 1))),
             ("Subscript1t", p.Subscript(o, (1,))), ("Lookup", p.Lookup(o, "real_part")), ("Lookup-call", p.Call(p.Lookup(o, "method"), (a,))),
             ("Call-in-arith", p.Sum((p.Call(f, (a,)), p.Product((2, p.Subscript(v, 0)))))), ("Min", p.Min((a, b, c))), ("Max", p.Max((a, p.Sum((b, 1))))),
+            ("Min-one-operand", p.Min((a,))), ("Max-one-operand", p.Sum((p.Max((p.Product((a, b)),)), 1))),
             ("Tuple-arg", p.Call(f, ((a, b),)))]
     # numpy scalar constants (the evaluator computes with them as they are; generated code must not depend on their repr)
     import numpy as np
@@ -242,6 +243,9 @@ def check_expr(b, label, e):
     if not cause and any(isinstance(n, (p_.LogicalOr, p_.LogicalAnd)) and any(not isinstance(c, (p_.Comparison, p_.LogicalNot, p_.LogicalOr, p_.LogicalAnd, bool)) for c in n.children)
                          for n in all_nodes_(e)):
         cause = " cause=logical-operator-on-non-boolean"
+
+    if not cause and any(isinstance(n, (p_.Min, p_.Max)) and len(n.children) == 1 for n in all_nodes_(e)):
+        cause = " cause=single-operand-min-max"
 
     def fail(what, detail, expected, actual, fns, **case):
         what = what + cause
